@@ -3,6 +3,11 @@
 import json, subprocess
 
 CHECKS = {
+ "C01": dict(
+  technique="bounded-exhaustive enumeration of programs (all clause sequences up to a length bound over a clause menu, all head/argument term pairs up to depth 2, all bodies up to a length bound over call/N and control wrappers, all constructions of a list from nested partial lists) executed on the real interpreter; answer sequences compared with an independent reference SLD machine",
+  text="Every program of the enumerated families is loaded into a fresh real interpreter and every query is run to exhaustion; the complete answer sequence (structurally captured, up to variable renaming), the terminal status, the error term and the output are compared with a textbook goal-stack/choice-point reference machine that shares no design with the promise/continuation VM. Exhaustive within the stated size bounds, smallest first.",
+  note="Trusted: the reference machine ref/solve (self-checked against the ISO examples) and the harness printer; programs beyond the size bounds or outside the signature are not covered; cases on which the reference exceeds its step budget are compared on the answer prefix only.",
+  design="DESIGN.md §3 C01"),
  "C07": dict(
   technique="bounded-exhaustive enumeration of the complete boundary-value grid (all functors x all operand pairs, all depth-2 trees over a reduced grid) on the real evaluator, each case compared with a math/big + IEEE-754 reference model",
   text="Every evaluable functor of the statement is run on the complete cross product of an integer and a float boundary grid (all int/float combinations), all shift counts, all six comparisons, and all depth-2 trees over a reduced grid; each result is compared with an exact reference (math/big integers, IEEE-754 doubles). Exhaustive within the grid: a wrong boundary test, a float detour or a sign slip in any of the per-type helpers shows up as a concrete expression.",
